@@ -165,9 +165,9 @@ def retype_empty_list(st, v, et):
 
 def list_append(st, lst, x):
     E = _ex()
+    if lst.t.args[0].kind == 'unknown':
+        st.init_empty(lst, T.TList(x.t))
     et = lst.t.args[0]
-    if et.kind == 'unknown':
-        raise Undecided('append to a list of undeclared element type (declare it in contract locals=)')
     E.check_or_raise(st, lst.z != 0, 'AttributeError')
     E.check_frame_contents(st, lst.z)
     s = st.list_seq(lst.z, et)
@@ -408,9 +408,9 @@ def new_dict(st, ty):
 
 def dict_set(st, d, key, val):
     E = _ex()
+    if d.t.args[0].kind == 'unknown':
+        st.init_empty(d, T.TDict(key.t, val.t))
     kt, vt = d.t.args
-    if kt.kind == 'unknown':
-        raise Undecided('dict of undeclared type: declare the local in contract locals=')
     E.check_frame_contents(st, d.z)
     keys, mp, has = st.dict_parts(d.z, kt, vt)
     kk = st.coerce(key, kt).z
